@@ -5,7 +5,8 @@
 // is decided by TLC (spec/RouterTrace.tla).
 //
 // Trace per case:  Case{...}  ( Order{o,perm,mode}  Register{r,m,pat,outcome}*  Lookup{i,m,path,ran,mw,params,byName,
-// fullPath,status}* )*  End.   mode (from the case) says how the engine is set up before registration: no middleware,
+// fullPath,status,prev}* )*  End.   prev = the parameter strings recorded during the previous request of the same
+// engine/context, read again after this request was served.   mode (from the case) says how the engine is set up before registration: no middleware,
 // three separate Use(noop), or two Use(noop) + routes on Group("", noop); the middlewares only count their runs.   After a registration panic the order is abandoned (a program whose registration panics does not
 // serve).  A panic while serving is logged as Panic (no spec action => rejected).
 package main
@@ -19,6 +20,7 @@ import (
 	"os"
 	"path/filepath"
 	"sort"
+	"strings"
 	"sync"
 
 	"github.com/cloudwego/hertz/pkg/app"
@@ -104,6 +106,11 @@ func register(e route.IRoutes, rt Route, id int, cur *obs) (outcome, msg string)
 	}()
 	names := rt.Names
 	e.Handle(rt.M, rt.Pat, func(c context.Context, ctx *app.RequestContext) {
+		// like a handler earlier in the chain that rewrites the URI: overwrite the path buffer with junk of the same
+		// length before the parameters are read (they must be the substrings matched at routing time)
+		if n := len(ctx.Request.URI().Path()); n > 0 {
+			ctx.Request.URI().SetPath("/" + strings.Repeat("~", n-1))
+		}
 		cur.ran = append(cur.ran, id)
 		cur.full = ctx.FullPath()
 		for _, p := range ctx.Params {
@@ -148,7 +155,9 @@ func runCase(tr *vtrace.Writer, c *Case) {
 		}
 		// one context re-used for all requests of this engine, reset in between like the server's pool does
 		ctx := e.NewContext()
+		kept := []kv{} // parameter strings a handler kept from the previous request, re-read after the next one
 		for i, lk := range c.Lookups {
+			prev := kept
 			*cur = obs{ran: []int{}, params: []kv{}, byName: []string{}}
 			status := 0
 			func() {
@@ -170,7 +179,8 @@ func runCase(tr *vtrace.Writer, c *Case) {
 				continue
 			}
 			tr.Emit("Lookup", vtrace.Rec{"i": i + 1, "m": lk.M, "path": lk.Path, "ran": cur.ran, "mw": cur.mw, "params": cur.params,
-				"byName": cur.byName, "fullPath": cur.full, "status": status})
+				"byName": cur.byName, "fullPath": cur.full, "status": status, "prev": append([]kv{}, prev...)})
+			kept = cur.params
 		}
 	}
 	tr.Emit("End", nil)
